@@ -107,7 +107,7 @@ func evCountGuard(res *Result, gk string, caseNo int, op string, ops []string) {
 		res.Counters["guard:lines-inside"]++
 	case "-":
 		res.Counters["guard:lines-after-a-failed-guard"]++
-	case "THEOREM-VIOLATED", "PANIC-NOT-SHARED", "INVARIANT-BROKEN:dirty-slot-without-origin":
+	case "THEOREM-VIOLATED", "PANIC-NOT-SHARED", "INVARIANT-BROKEN:dirty-slot-without-origin", "GUARD-UNKNOWN":
 		// what Props/C16.lean proves of the model, observed on the executable model: a mismatch is a bug of ours
 		res.Disagreements = append(res.Disagreements, Disagreement{Kind: "model-Impl-vs-model-Ref-inside-guards", Case: caseNo, Op: op, Impl: "", Model: gk, Ops: ops})
 	default:
